@@ -582,3 +582,22 @@ func TestReplayNesting(t *testing.T) {
 	}
 	ev.Sample("nesting probe: " + fmt.Sprint(len(nestCases)) + " constructs x depths " + fmt.Sprint(depths) + " x {pre-auth, selected}, child process with 32MiB stack cap")
 }
+
+// FuzzServerBytes (thorough tier): coverage-guided client byte streams with the
+// oracles of feed (no panic, no goroutine left, session closed exactly once,
+// append limit) on top of the generated campaigns.
+func FuzzServerBytes(f *testing.F) {
+	for _, s := range []string{"a NOOP\r\n", "a LOGIN u p\r\nb SELECT INBOX\r\nc FETCH 1:* (FLAGS BODY[HEADER.FIELDS (A B)]<0.5>)\r\n", "a LOGIN {1+}\r\nu p\r\n", "a AUTHENTICATE PLAIN\r\nAHUAcA==\r\n",
+		"a LOGIN u p\r\nb IDLE\r\nDONE\r\n", "a APPEND x (\\Seen) {5}\r\nhello\r\n", "a SEARCH OR NOT (ALL) HEADER x {1}\r\ny\r\n", "a LIST (SUBSCRIBED) \"\" (\"%\" \"*\") RETURN (STATUS (MESSAGES))\r\n",
+		"a STARTTLS\r\n", "a UID MOVE 1:* x\r\n", "a STORE 1 +FLAGS.SILENT (\\Seen)\r\n", "a ENABLE IMAP4rev2\r\nb LOGOUT\r\n", "((((", "a FETCH 1 BINARY.SIZE[1.2]\r\n", "{9223372036854775807+}\r\n"} {
+		f.Add([]byte(s), false)
+		f.Add([]byte("p1 LOGIN u p\r\np2 SELECT INBOX\r\n"+s), true)
+	}
+	f.Fuzz(func(t *testing.T, data []byte, lp bool) {
+		if len(data) > 3000 {
+			return
+		}
+		literalPlus = lp
+		feed(t, data, "halfclose", "fuzz")
+	})
+}
